@@ -15,11 +15,44 @@ class BudgetExceeded (Exception):
   pass
 
 
+def all_code (*modules):
+  """Every code object defined in the given modules: functions, methods,
+  properties, and what is nested in them.  (A loop that does not end may sit
+  in a helper that was written yesterday: the budget covers whatever the
+  modules contain when the check runs, not a list of names.)"""
+  import types
+  seen = {}
+  def add (c):
+    if id(c) in seen: return
+    seen[id(c)] = c
+    for k in c.co_consts:
+      if isinstance(k, types.CodeType): add(k)
+  def visit (obj, modname, depth=0):
+    f = obj
+    if isinstance(f, (staticmethod, classmethod)): f = f.__func__
+    if isinstance(f, property):
+      for g in (f.fget, f.fset, f.fdel):
+        if g is not None: visit(g, modname, depth)
+      return
+    c = getattr(f, "__code__", None)
+    if isinstance(c, types.CodeType):
+      if getattr(f, "__module__", modname) == modname: add(c)
+      return
+    if isinstance(f, type) and f.__module__ == modname and depth < 3:
+      for v in list(vars(f).values()): visit(v, modname, depth + 1)
+  for m in modules:
+    for v in list(vars(m).values()): visit(v, m.__name__)
+  return list(seen.values())
+
+
 class Budget (object):
   def __init__ (self, functions):
     self.mon = sys.monitoring
     self.codes = []
+    import types
     for f in functions:
+      if isinstance(f, types.CodeType):
+        self.codes.append(f); continue
       c = getattr(f, "__code__", None)
       if c is None: c = getattr(getattr(f, "__func__", None), "__code__", None)
       if c is None: raise TypeError("no code object for %r" % (f,))
@@ -55,6 +88,9 @@ class Budget (object):
 
   def disarm (self):
     if self.count > self.max_seen: self.max_seen = self.count
+    if self.limit and not self.tripped:
+      r = self.count / float(self.limit)
+      if r > getattr(self, "max_ratio", 0.0): self.max_ratio = r
     self.limit = None
     return self.count
 
